@@ -1,5 +1,6 @@
 import Proofs.DistReal
 import Proofs.DistGenEq
+import Proofs.PpoGlueGenEq
 
 /-!
 # C16 — stochastic policies report the true log-probability and entropy of their actions
@@ -28,6 +29,15 @@ scale_action}` symbolically, once per action-space kind, and writes `Gen/DistGen
 under test on every run); `Proofs/DistGenEq.lean` proves those definitions equal to the composition functions of
 `Model/Dist.lean`, and the main theorems above are restated over the generated definitions with the elementary
 functions and primitive log-densities as the explicit parameter structure `DistGen.Prims`.
+
+PPO / IPPO glue (`C16_glue_*`, `C16_source_translation_glue_*`, after the non-vacuity examples):
+`harness/py2lean_ppoglue.py` translates `PPO.{_get_action_and_values, evaluate_actions, get_action}`, the minibatch
+statements of `PPO.learn`, the per-group body of `IPPO.get_action` and the minibatch statements of
+`IPPO._learn_individual` into `Gen/PpoGlueGen.lean`; `Proofs/PpoGlueGenEq.lean` proves them equal to the glue functions
+of `Model/Dist.lean` (`Glue.*`) and builds the glue environment of a policy that acts row by row (`rowGlue`) over the
+row policies of `Gen/DistGen.lean`.  Derived: which action / log-prob is stored, `ratio = 1` in the first minibatch
+without a mask, the squeeze / unsqueeze logic, the skipped single-row minibatch, re-evaluation without the mask
+(`_partial` + decided witness: open finding `C16-ppo-reevaluation-ignores-mask`), the entropy bonus.
 -/
 namespace Dist
 open Util
@@ -507,5 +517,354 @@ noncomputable example : ∃ P : DistGen.Prims ℝ, (∀ q : ℚ, P.lit q = (q : 
      bernoulliEntropy := fun _ => 0 }, fun _ => rfl, rfl, rfl⟩
 -- generated MultiDiscrete([2,3]) forward: action (1,2) selects logits 1 and 2+2=4 of the flat vector
 example : (DistGen.MultiDiscrete.forward exPrims [2, 3] [-1, -2, -3, -4, -5] [1, 2]).2.1 = -7 := by decide
+
+set_option linter.unusedSectionVars false
+set_option linter.unusedSimpArgs false
+set_option linter.unusedVariables false
+
+
+/-! ### the PPO / IPPO glue: which action, which mask, which log-prob (model level) -/
+section glue
+variable {α T O M D : Type} [Add T] [Sub T] [Mul T] [Sub α] [Neg α]
+
+/-- **which action and which log-prob are stored**: in training mode `PPO.get_action` returns the policy head's action
+    exactly as sampled — NOT scaled to the Box bounds (with squashing: `tanh(u) ∈ (−1,1)`), NOT clipped — together with
+    the head's log-prob of exactly that action; in evaluation mode on a Box space it returns the rescaled action
+    (`low + 0.5·(a+1)·(high−low)`, squashing) or the clipped one, while the log-prob stays that of the unscaled /
+    unclipped action; on every other space the action is never touched. -/
+theorem C16_glue_stored_action_is_head_action (G : Glue α T O M D) (isBox share : Bool) (high low : T) (obs : O)
+    (mask : Option M) (d : D) :
+    (G.ppoGetAction isBox share true high low obs mask d).1 = (G.forward_head obs d mask).1 ∧
+    (∀ training, (G.ppoGetAction isBox share training high low obs mask d).2.1 = (G.forward_head obs d mask).2.1) ∧
+    (∀ training, (G.ppoGetAction false share training high low obs mask d).1 = (G.forward_head obs d mask).1) ∧
+    (G.ppoGetAction true share false high low obs mask d).1
+      = (if G.squash_output then low + G.lit (1 / 2) * ((G.forward_head obs d mask).1 + G.lit 1) * (high - low)
+         else G.clip (G.forward_head obs d mask).1 low high) := by
+  refine ⟨?_, fun _ => rfl, fun t => ?_, ?_⟩
+  · cases isBox <;> rfl
+  · cases t <;> rfl
+  · rfl
+
+/-- **(i) ratio = 1 in the first minibatch** — no mask, unchanged weights: if the actor re-evaluates its own action
+    consistently (`action_log_prob` after ANY later unmasked forward pass `d'` on the same rows gives the log-prob the
+    sampling pass `d` reported — per kind: `C16_source_translation_glue_row_policies_consistent`) and the squeeze logic
+    hands the stored action over intact (`C16_glue_squeeze_keeps_action_dimension`), then for a minibatch of `n > 1`
+    rows `learn` re-computes exactly the stored log-prob: `logratio = 0` and `ratio = exp 0 = 1` for every row. -/
+theorem C16_glue_reevaluation_first_minibatch (G : Glue α T O M D) (zero one : α) (hsub : ∀ x : α, x - x = zero)
+    (hexp : G.exp zero = one) (isBox isDiscrete share : Bool) (high low : T) (obs : O) (d d' : D) (n : Nat)
+    (hn : n > 1)
+    (hcons : G.action_log_prob obs d' none (G.forward_head obs d none).1 = (G.forward_head obs d none).2.1)
+    (hshape : G.handed isDiscrete (G.forward_head obs d none).1 = (G.forward_head obs d none).1) :
+    let r := G.ppoGetAction isBox share true high low obs none d
+    (G.ppoLearnMinibatch isDiscrete n share obs r.1 r.2.1 d').map (fun t => (t.1, t.2.1, t.2.2.1, t.2.2.2.1))
+      = some (r.1, r.2.1, r.2.1.map (fun _ => zero), r.2.1.map (fun _ => one)) := by
+  intro r
+  have h1 : r.1 = (G.forward_head obs d none).1 := (C16_glue_stored_action_is_head_action G isBox share high low obs none d).1
+  have h2 : r.2.1 = (G.forward_head obs d none).2.1 := rfl
+  unfold Glue.ppoLearnMinibatch Glue.ppoEvaluate
+  simp only [hn, if_true, h1, h2, hshape, hcons, zipWith_sub_self zero hsub, List.map_map, Option.map_some]
+  have : (G.exp ∘ fun (_ : α) => zero) = fun _ => one := by funext _; exact hexp
+  rw [this]
+
+/-- the same for IPPO: the stored action is what `actor(obs)` (StochasticActor.forward) returned in training mode -/
+theorem C16_glue_ippo_reevaluation_first_minibatch (G : Glue α T O M D) (zero one : α) (hsub : ∀ x : α, x - x = zero)
+    (hexp : G.exp zero = one) (isBox isDiscrete : Bool) (high low : T) (obs : O) (d d' : D) (n : Nat) (hn : n > 1)
+    (hcons : G.action_log_prob obs d' none (G.forward obs d none).1 = (G.forward obs d none).2.1)
+    (hshape : G.handed isDiscrete (G.forward obs d none).1 = (G.forward obs d none).1) :
+    let r := G.ippoGetActionAgent isBox true high low obs none d
+    (G.ippoLearnMinibatch isDiscrete n obs r.1 r.2.1 d').map (fun t => (t.1, t.2.1, t.2.2.1, t.2.2.2.1))
+      = some (r.1, r.2.1, r.2.1.map (fun _ => zero), r.2.1.map (fun _ => one)) := by
+  intro r
+  have h1 : r.1 = (G.forward obs d none).1 := by cases isBox <;> rfl
+  have h2 : r.2.1 = (G.forward obs d none).2.1 := rfl
+  unfold Glue.ippoLearnMinibatch
+  simp only [hn, if_true, h1, h2, hshape, hcons, zipWith_sub_self zero hsub, List.map_map, Option.map_some]
+  have : (G.exp ∘ fun (_ : α) => zero) = fun _ => one := by funext _; exact hexp
+  rw [this]
+
+/-- **(ii) the squeeze / unsqueeze logic keeps the action dimension** for a minibatch of `B ≥ 2` rows: a `(B, d)`
+    action tensor of a Box / MultiDiscrete / MultiBinary space is handed to the actor as `(B, d)` — also for `d = 1`,
+    where `squeeze()` drops the dimension and `unsqueeze(1)` restores it (the earlier defect) — and Discrete actions,
+    stored as `(B,)` or `(B, 1)`, are handed over as `(B,)`.  The rows are never touched. -/
+theorem C16_glue_squeeze_keeps_action_dimension {β : Type} (B d : Nat) (hB : B ≥ 2) (hd : d ≥ 1) (rows : List β) :
+    handedWith Shaped.squeeze Shaped.unsqueeze Shaped.dim false ⟨[B, d], rows⟩ = ⟨[B, d], rows⟩ ∧
+    handedWith Shaped.squeeze Shaped.unsqueeze Shaped.dim true ⟨[B], rows⟩ = ⟨[B], rows⟩ ∧
+    handedWith Shaped.squeeze Shaped.unsqueeze Shaped.dim true ⟨[B, 1], rows⟩ = ⟨[B], rows⟩ := by
+  have hB1 : (B != 1) = true := by simp; omega
+  refine ⟨?_, ?_, ?_⟩
+  · by_cases h1 : d = 1
+    · subst h1
+      simp [handedWith, Shaped.squeeze, Shaped.unsqueeze, Shaped.dim, List.filter, hB1]
+    · have hd1 : (d != 1) = true := by simp [h1]
+      simp [handedWith, Shaped.squeeze, Shaped.unsqueeze, Shaped.dim, List.filter, hB1, hd1]
+  · simp [handedWith, Shaped.squeeze, Shaped.dim, List.filter, hB1]
+  · simp [handedWith, Shaped.squeeze, Shaped.dim, List.filter, hB1]
+
+/-- **(ii), minibatch of one row, as coded**: the guard `len(minibatch_idxs) > 1` skips it — nothing is re-evaluated,
+    no loss, no update from these rows (PPO and IPPO alike), whatever the tensors hold. -/
+theorem C16_glue_minibatch_of_one_skipped (G : Glue α T O M D) (isDiscrete share : Bool) (obs : O) (a : T)
+    (stored : List α) (d : D) (n : Nat) (hn : n ≤ 1) :
+    G.ppoLearnMinibatch isDiscrete n share obs a stored d = none ∧
+    G.ippoLearnMinibatch isDiscrete n obs a stored d = none := by
+  have : ¬ n > 1 := by omega
+  simp [Glue.ppoLearnMinibatch, Glue.ippoLearnMinibatch, this]
+
+/-- … and it has to: on a single row the shape logic alone would turn a `(1, 3)` action into `(3, 1)` -/
+theorem C16_glue_squeeze_single_row_witness :
+    ¬ (handedWith Shaped.squeeze Shaped.unsqueeze Shaped.dim false (⟨[1, 3], [()]⟩ : Shaped Unit)).shape = [1, 3] := by
+  decide
+
+/-- **(iii) WITH a mask, as coded** (`_partial`: the statement "re-evaluating gives the stored log-prob" is proved only
+    under the extra hypothesis that the mask does not change the log-prob of the stored action).  `evaluate_actions`
+    has no mask argument and `learn` stores none: whatever mask `m` the action was sampled under, the log-prob
+    re-computed in `learn` is `action_log_prob` after a forward pass with mask `None`.  Open finding
+    `C16-ppo-reevaluation-ignores-mask`; refuted in general by `C16_glue_masked_reevaluation_witness`. -/
+theorem C16_glue_masked_reevaluation_partial (G : Glue α T O M D) (zero : α) (hsub : ∀ x : α, x - x = zero)
+    (isBox isDiscrete share : Bool) (high low : T) (obs : O) (m : M) (d d' : D) (n : Nat) (hn : n > 1) :
+    let r := G.ppoGetAction isBox share true high low obs (some m) d
+    (G.ppoLearnMinibatch isDiscrete n share obs r.1 r.2.1 d').map (·.2.1)
+        = some (G.action_log_prob obs d' none (G.handed isDiscrete (G.forward_head obs d (some m)).1)) ∧
+    (G.action_log_prob obs d' none (G.handed isDiscrete (G.forward_head obs d (some m)).1)
+        = (G.forward_head obs d (some m)).2.1 →
+      (G.ppoLearnMinibatch isDiscrete n share obs r.1 r.2.1 d').map (·.2.2.1)
+        = some (r.2.1.map (fun _ => zero))) := by
+  intro r
+  have h1 : r.1 = (G.forward_head obs d (some m)).1 :=
+    (C16_glue_stored_action_is_head_action G isBox share high low obs (some m) d).1
+  have h2 : r.2.1 = (G.forward_head obs d (some m)).2.1 := rfl
+  refine ⟨?_, fun hc => ?_⟩
+  · unfold Glue.ppoLearnMinibatch Glue.ppoEvaluate
+    simp only [hn, if_true, h1, Option.map_some]
+  · unfold Glue.ppoLearnMinibatch Glue.ppoEvaluate
+    simp only [hn, if_true, h1, h2, hc, zipWith_sub_self zero hsub, Option.map_some]
+
+/-- **(iv) the entropy bonus, as coded**: `learn` uses the mean of the per-row entropies of the (unmasked) forward
+    pass when the policy defines an entropy, and `−mean(log_prob of the stored actions)` when it is squashed
+    (`entropy is None`); `get_action` reports the per-row entropies, resp. the single number `−mean(log_prob)`;
+    IPPO has no stand-in: with a squashed policy its entropy entries are `None` (`.cpu()` / `.mean()` raise). -/
+theorem C16_glue_entropy_bonus (G : Glue α T O M D) (isBox isDiscrete share training : Bool) (high low : T) (obs : O)
+    (mask : Option M) (a : T) (stored : List α) (d : D) (n : Nat) (hn : n > 1) :
+    (∀ ents, (G.forward_head obs d none).2.2 = some ents →
+      (G.ppoLearnMinibatch isDiscrete n share obs a stored d).map (·.2.2.2.2) = some (G.mean ents)) ∧
+    ((G.forward_head obs d none).2.2 = none →
+      (G.ppoLearnMinibatch isDiscrete n share obs a stored d).map (fun t => (t.2.1, t.2.2.2.2))
+        = some (G.action_log_prob obs d none (G.handed isDiscrete a),
+                -(G.mean (G.action_log_prob obs d none (G.handed isDiscrete a))))) ∧
+    (∀ ents, (G.forward_head obs d mask).2.2 = some ents →
+      (G.ppoGetAction isBox share training high low obs mask d).2.2.1 = .rows ents) ∧
+    ((G.forward_head obs d mask).2.2 = none →
+      (G.ppoGetAction isBox share training high low obs mask d).2.2.1
+        = .scalar (-(G.mean (G.forward_head obs d mask).2.1))) ∧
+    ((G.forward obs d mask).2.2 = none →
+      (G.ippoGetActionAgent isBox training high low obs mask d).2.2.1 = none) ∧
+    (G.ippoLearnMinibatch isDiscrete n obs a stored d).map (·.2.2.2.2)
+      = some ((G.forward obs d none).2.2.map G.mean) := by
+  refine ⟨fun ents he => ?_, fun he => ?_, fun ents he => ?_, fun he => ?_, fun he => he, ?_⟩
+  · simp [Glue.ppoLearnMinibatch, Glue.ppoEvaluate, hn, he, Glue.entOf, PEnt.mean]
+  · simp [Glue.ppoLearnMinibatch, Glue.ppoEvaluate, hn, he, Glue.entOf, PEnt.mean]
+  · simp [Glue.ppoGetAction, he, Glue.entOf]
+  · simp [Glue.ppoGetAction, he, Glue.entOf]
+  · simp [Glue.ippoLearnMinibatch, hn]
+
+end glue
+
+/-! ### the glue over a policy that acts row by row, and over the translated source -/
+section rowwise
+variable {α R U Mk A : Type} [Sub α] [Neg α] [Add (Shaped A)] [Sub (Shaped A)] [Mul (Shaped A)]
+
+/-- **(i) for a row-wise policy, every action-space kind, every batch of `B ≥ 2` rows**: if re-evaluating a row's own
+    action without a mask gives that row's reported log-prob (`hrow`; per kind
+    `C16_source_translation_glue_row_policies_consistent`), the first minibatch of `PPO.learn` has `logratio = 0` and
+    `ratio = 1` in every row — the stored action (the head's, unscaled and unclipped) is exactly the point the stored
+    log-prob was computed for, it reaches `action_log_prob` with its `(B,)` / `(B, d)` shape, and the fresh draw `us'`
+    of the forward pass inside `evaluate_actions` does not matter. -/
+theorem C16_glue_rowwise_reevaluation_first_minibatch
+    (fw : R → U → Option Mk → A × α × Option α) (lp : R → U → Option Mk → A → α)
+    (hrow : ∀ r u u', lp r u' none (fw r u none).1 = (fw r u none).2.1)
+    (isDiscrete : Bool) (dA : Nat) (hd : dA ≥ 1) (exp : α → α) (mean : List α → α) (num : Rat → α) (squash : Bool)
+    (scale clip : A → A) (lit : Rat → Shaped A) (value : R → α)
+    (zero one : α) (hsub : ∀ x : α, x - x = zero) (hexp : exp zero = one)
+    (isBox share : Bool) (high low : Shaped A) (obs : List R) (us us' : List U)
+    (hB : obs.length ≥ 2) (hu : us.length = obs.length) (hu' : us'.length = obs.length) (n : Nat) (hn : n > 1) :
+    let G := rowGlue fw lp isDiscrete dA exp mean num squash scale clip lit value
+    let r := G.ppoGetAction isBox share true high low obs none us
+    (G.ppoLearnMinibatch isDiscrete n share obs r.1 r.2.1 us').map (fun t => (t.1, t.2.1, t.2.2.1, t.2.2.2.1))
+      = some (r.1, r.2.1, r.2.1.map (fun _ => zero), r.2.1.map (fun _ => one)) := by
+  intro G r
+  apply C16_glue_reevaluation_first_minibatch G zero one hsub hexp isBox isDiscrete share high low obs us us' n hn
+  · show (if _ then _ else _) = _
+    rw [if_pos (by rfl)]
+    exact rowForward_reeval fw lp hrow obs us us' obs.length hu hu' rfl
+  · show handedWith Shaped.squeeze Shaped.unsqueeze Shaped.dim isDiscrete _ = _
+    have h := C16_glue_squeeze_keeps_action_dimension obs.length dA hB hd
+      ((List.zipWith (fun (ru : R × U) mk => fw ru.1 ru.2 mk) (obs.zip us) (maskRows none obs.length)).map (·.1))
+    cases isDiscrete
+    · exact h.1
+    · exact h.2.1
+
+end rowwise
+
+section source_translation_glue
+variable {α : Type} [Add α] [Sub α] [Mul α] [Zero α] (P : DistGen.Prims α)
+
+/-- **over the translated source (`Gen/DistGen.lean`)**: the row policies of every action-space kind re-evaluate their
+    own unmasked action consistently — Discrete / MultiDiscrete / MultiBinary and the plain Gaussian literally, the
+    squashed Gaussian if `atanh(clamp(tanh x)) = x` (the stored action is the UNSCALED `tanh(u)`) -/
+theorem C16_source_translation_glue_row_policies_consistent (low high log_std : List α) (eps : α) (nvec : List Nat)
+    (n : Nat) (hinv : ∀ x, genPre P eps (P.tanh x) = x) :
+    (∀ l k (u' : Nat), discreteLp P l u' none (discretePolicy P l k none).1 = (discretePolicy P l k none).2.1) ∧
+    (∀ l k (u' : List Nat), multiDiscreteLp P nvec l u' none (multiDiscretePolicy P nvec l k none).1
+        = (multiDiscretePolicy P nvec l k none).2.1) ∧
+    (∀ l k (u' : List Bool), multiBinaryLp P n l u' none (multiBinaryPolicy P n l k none).1
+        = (multiBinaryPolicy P n l k none).2.1) ∧
+    (∀ l u u', boxLp P false log_std eps l u' none (boxPolicy P false low high log_std l u none).1
+        = (boxPolicy P false low high log_std l u none).2.1) ∧
+    (∀ l u u', boxLp P true log_std eps l u' none (boxPolicy P true low high log_std l u none).1
+        = (boxPolicy P true low high log_std l u none).2.1) := by
+  refine ⟨fun _ _ _ => rfl, fun _ _ _ => rfl, fun _ _ _ => rfl, fun l u u' => ?_, fun l u u' => ?_⟩
+  · exact (C16_source_translation_reevaluation_same_formula P low high log_std l u u' eps [] 0 [] [] false hinv
+      (by simp)).2.1
+  · exact (C16_source_translation_reevaluation_same_formula P low high log_std l u u' eps [] 0 [] [] false hinv
+      (by simp)).1
+
+end source_translation_glue
+
+section source_translation_glue2
+variable {α T O M D : Type} [Add T] [Sub T] [Mul T] [Add α] [Sub α] [Mul α] [Neg α]
+
+/-- **over the translated source (`ppo.py`)**: which action and which log-prob `PPO.get_action` returns
+    (`C16_glue_stored_action_is_head_action` for the generated `get_action`) -/
+theorem C16_source_translation_glue_stored_action (G : Glue α T O M D) (isBox share : Bool) (high low : T) (obs : O)
+    (mask : Option M) (d : D) :
+    (PpoGlueGen.PPO.get_action (toGen G) isBox share true high low obs mask d).1 = (G.forward_head obs d mask).1 ∧
+    (∀ training, (PpoGlueGen.PPO.get_action (toGen G) isBox share training high low obs mask d).2.1
+        = (G.forward_head obs d mask).2.1) ∧
+    (PpoGlueGen.PPO.get_action (toGen G) true share false high low obs mask d).1
+      = (if G.squash_output then low + G.lit (1 / 2) * ((G.forward_head obs d mask).1 + G.lit 1) * (high - low)
+         else G.clip (G.forward_head obs d mask).1 low high) ∧
+    (PpoGlueGen.IPPO.get_action_agent (toGen G) isBox true high low obs mask d).1 = (G.forward obs d mask).1 ∧
+    (PpoGlueGen.IPPO.get_action_agent (toGen G) true false high low obs mask d).1
+      = (if G.squash_output then G.scale_action (G.forward obs d mask).1 else G.clip (G.forward obs d mask).1 low high) := by
+  have h := C16_glue_stored_action_is_head_action G isBox share high low obs mask d
+  refine ⟨?_, fun t => ?_, ?_, ?_, ?_⟩
+  · rw [gen_ppo_get_action_eq]; exact h.1
+  · rw [gen_ppo_get_action_eq]; exact h.2.1 t
+  · rw [gen_ppo_get_action_eq]; exact (C16_glue_stored_action_is_head_action G true share high low obs mask d).2.2.2
+  · rw [gen_ippo_get_action_agent_eq]; cases isBox <;> rfl
+  · rw [gen_ippo_get_action_agent_eq]; rfl
+
+/-- **over the translated source**: (i) for the generated `get_action` / `learn_minibatch` of PPO and IPPO -/
+theorem C16_source_translation_glue_reevaluation_first_minibatch (G : Glue α T O M D) (zero one : α)
+    (hsub : ∀ x : α, x - x = zero) (hexp : G.exp zero = one) (isBox isDiscrete share : Bool) (high low : T) (obs : O)
+    (d d' : D) (n : Nat) (hn : n > 1) :
+    (G.action_log_prob obs d' none (G.forward_head obs d none).1 = (G.forward_head obs d none).2.1 →
+     G.handed isDiscrete (G.forward_head obs d none).1 = (G.forward_head obs d none).1 →
+      let r := PpoGlueGen.PPO.get_action (toGen G) isBox share true high low obs none d
+      (PpoGlueGen.PPO.learn_minibatch (toGen G) isDiscrete n share obs r.1 r.2.1 d').map
+          (fun t => (t.1, t.2.1, t.2.2.1, t.2.2.2.1))
+        = some (r.1, r.2.1, r.2.1.map (fun _ => zero), r.2.1.map (fun _ => one))) ∧
+    (G.action_log_prob obs d' none (G.forward obs d none).1 = (G.forward obs d none).2.1 →
+     G.handed isDiscrete (G.forward obs d none).1 = (G.forward obs d none).1 →
+      let r := PpoGlueGen.IPPO.get_action_agent (toGen G) isBox true high low obs none d
+      (PpoGlueGen.IPPO.learn_minibatch (toGen G) isDiscrete n obs r.1 r.2.1 d').map
+          (fun t => (t.1, t.2.1, t.2.2.1, t.2.2.2.1))
+        = some (r.1, r.2.1, r.2.1.map (fun _ => zero), r.2.1.map (fun _ => one))) := by
+  refine ⟨fun hc hs => ?_, fun hc hs => ?_⟩
+  · intro r
+    simp only [r, gen_ppo_get_action_eq, gen_ppo_learn_minibatch_eq]
+    exact C16_glue_reevaluation_first_minibatch G zero one hsub hexp isBox isDiscrete share high low obs d d' n hn hc hs
+  · intro r
+    simp only [r, gen_ippo_get_action_agent_eq, gen_ippo_learn_minibatch_eq]
+    exact C16_glue_ippo_reevaluation_first_minibatch G zero one hsub hexp isBox isDiscrete high low obs d d' n hn hc hs
+
+/-- **over the translated source**: (ii) the generated minibatch slice hands a `(B, d)` action over as `(B, d)`
+    (`B ≥ 2`, `d ≥ 1`, non-Discrete), Discrete actions as `(B,)`, and skips a minibatch of one row -/
+theorem C16_source_translation_glue_squeeze (G : Glue α (Shaped β) O M D) [Add (Shaped β)] [Sub (Shaped β)] [Mul (Shaped β)]
+    (hs : G.squeeze = Shaped.squeeze) (hu : G.unsqueeze = Shaped.unsqueeze) (hdim : G.dim = Shaped.dim)
+    (B d : Nat) (hB : B ≥ 2) (hd : d ≥ 1) (rows : List β) (share : Bool) (obs : O) (stored : List α) (dr : D)
+    (n : Nat) (hn : n > 1) :
+    (PpoGlueGen.PPO.learn_minibatch (toGen G) false n share obs ⟨[B, d], rows⟩ stored dr).map (·.1)
+      = some ⟨[B, d], rows⟩ ∧
+    (PpoGlueGen.IPPO.learn_minibatch (toGen G) false n obs ⟨[B, d], rows⟩ stored dr).map (·.1)
+      = some ⟨[B, d], rows⟩ ∧
+    (PpoGlueGen.PPO.learn_minibatch (toGen G) true n share obs ⟨[B], rows⟩ stored dr).map (·.1) = some ⟨[B], rows⟩ ∧
+    (∀ isDiscrete a, PpoGlueGen.PPO.learn_minibatch (toGen G) isDiscrete 1 share obs a stored dr = none ∧
+                     PpoGlueGen.IPPO.learn_minibatch (toGen G) isDiscrete 1 obs a stored dr = none) := by
+  have h := C16_glue_squeeze_keeps_action_dimension B d hB hd rows
+  refine ⟨?_, ?_, ?_, fun isD a => ?_⟩
+  · rw [gen_ppo_learn_minibatch_eq]
+    simp only [Glue.ppoLearnMinibatch, hn, if_true, Option.map_some, Glue.handed, hs, hu, hdim, h.1]
+  · rw [gen_ippo_learn_minibatch_eq]
+    simp only [Glue.ippoLearnMinibatch, hn, if_true, Option.map_some, Glue.handed, hs, hu, hdim, h.1]
+  · rw [gen_ppo_learn_minibatch_eq]
+    simp only [Glue.ppoLearnMinibatch, hn, if_true, Option.map_some, Glue.handed, hs, hu, hdim, h.2.1]
+  · rw [gen_ppo_learn_minibatch_eq, gen_ippo_learn_minibatch_eq]
+    exact C16_glue_minibatch_of_one_skipped G isD share obs a stored dr 1 (Nat.le_refl 1)
+
+/-- **over the translated source**: (iii) the generated `learn` slice re-evaluates WITHOUT the mask the action was
+    sampled under (`_partial`, open finding `C16-ppo-reevaluation-ignores-mask`) -/
+theorem C16_source_translation_glue_masked_reevaluation_partial (G : Glue α T O M D) (zero : α)
+    (hsub : ∀ x : α, x - x = zero) (isBox isDiscrete share : Bool) (high low : T) (obs : O) (m : M) (d d' : D)
+    (n : Nat) (hn : n > 1) :
+    let r := PpoGlueGen.PPO.get_action (toGen G) isBox share true high low obs (some m) d
+    (PpoGlueGen.PPO.learn_minibatch (toGen G) isDiscrete n share obs r.1 r.2.1 d').map (·.2.1)
+        = some (G.action_log_prob obs d' none (G.handed isDiscrete (G.forward_head obs d (some m)).1)) ∧
+    (G.action_log_prob obs d' none (G.handed isDiscrete (G.forward_head obs d (some m)).1)
+        = (G.forward_head obs d (some m)).2.1 →
+      (PpoGlueGen.PPO.learn_minibatch (toGen G) isDiscrete n share obs r.1 r.2.1 d').map (·.2.2.1)
+        = some (r.2.1.map (fun _ => zero))) := by
+  intro r
+  simp only [r, gen_ppo_get_action_eq, gen_ppo_learn_minibatch_eq]
+  exact C16_glue_masked_reevaluation_partial G zero hsub isBox isDiscrete share high low obs m d d' n hn
+
+/-- **over the translated source**: (iv) the entropy bonus of the generated slices -/
+theorem C16_source_translation_glue_entropy_bonus (G : Glue α T O M D) (isDiscrete share : Bool) (obs : O)
+    (a : T) (stored : List α) (d : D) (n : Nat) (hn : n > 1) :
+    (∀ ents, (G.forward_head obs d none).2.2 = some ents →
+      (PpoGlueGen.PPO.learn_minibatch (toGen G) isDiscrete n share obs a stored d).map (·.2.2.2.2) = some (G.mean ents)) ∧
+    ((G.forward_head obs d none).2.2 = none →
+      (PpoGlueGen.PPO.learn_minibatch (toGen G) isDiscrete n share obs a stored d).map (fun t => (t.2.1, t.2.2.2.2))
+        = some (G.action_log_prob obs d none (G.handed isDiscrete a),
+                -(G.mean (G.action_log_prob obs d none (G.handed isDiscrete a))))) ∧
+    (PpoGlueGen.IPPO.learn_minibatch (toGen G) isDiscrete n obs a stored d).map (·.2.2.2.2)
+      = some ((G.forward obs d none).2.2.map G.mean) := by
+  have h := C16_glue_entropy_bonus G false isDiscrete share true (G.lit 0) (G.lit 0) obs none a stored d n hn
+  rw [gen_ppo_learn_minibatch_eq, gen_ippo_learn_minibatch_eq]
+  exact ⟨h.1, h.2.1, h.2.2.2.2.2⟩
+
+end source_translation_glue2
+
+/-- **(iii) decided witness** (consistent with the open finding `C16-ppo-reevaluation-ignores-mask`): two rows of a
+    Discrete(2) policy with logits `[0, 0]`, both sampled under the mask `[1, 0]`; the generated `learn` slice
+    re-evaluates the stored actions without the mask and `logratio` is not 0, with unchanged weights -/
+theorem C16_source_translation_glue_masked_reevaluation_witness :
+    ¬ (let r := witGlue.forward_head [[0, 0], [0, 0]] [0, 0] (some [[true, false], [true, false]])
+       (PpoGlueGen.PPO.learn_minibatch (toGen witGlue) true 2 false [[0, 0], [0, 0]] r.1 r.2.1 [0, 0]).map (·.2.2.1)
+         = some (r.2.1.map (fun _ => 0))) := by
+  decide
+
+/-- … while without a mask the same two rows are re-evaluated to `logratio = 0` -/
+theorem C16_source_translation_glue_unmasked_reevaluation_example :
+    (let r := witGlue.forward_head [[0, 0], [0, 0]] [0, 1] none
+     (PpoGlueGen.PPO.learn_minibatch (toGen witGlue) true 2 false [[0, 0], [0, 0]] r.1 r.2.1 [1, 0]).map (·.2.2.1)
+       = some (r.2.1.map (fun _ => 0))) := by
+  decide
+
+/-! #### non-vacuity of the glue theorems -/
+
+-- the hypotheses of `C16_glue_reevaluation_first_minibatch` hold for a concrete two-row Discrete(2) policy:
+-- consistent re-evaluation after another draw, and the `(2,)` action tensor is handed over intact
+example : witGlue.action_log_prob [[0, 0], [0, 0]] [1, 1] none (witGlue.forward_head [[0, 0], [0, 0]] [0, 1] none).1
+    = (witGlue.forward_head [[0, 0], [0, 0]] [0, 1] none).2.1 := by decide
+example : (witGlue.handed true (witGlue.forward_head [[0, 0], [0, 0]] [0, 1] none).1).shape
+    = (witGlue.forward_head [[0, 0], [0, 0]] [0, 1] none).1.shape := by decide
+-- `x - x = 0` and `exp 0 = 1` for the witness carrier (`exp := id` would need `0 = 1`: the hypotheses are about the
+-- real `exp`; over `Int` with `exp := fun x => x + 1` they hold)
+example : (∀ x : Int, x - x = 0) ∧ (fun x : Int => x + 1) 0 = 1 := ⟨fun x => Int.sub_self x, rfl⟩
+-- a `(3, 1)` MultiBinary(1) minibatch: squeeze drops the action dimension, unsqueeze(1) restores it
+example : (handedWith Shaped.squeeze Shaped.unsqueeze Shaped.dim false (⟨[3, 1], [(), (), ()]⟩ : Shaped Unit)).shape
+    = [3, 1] := by decide
+-- the row-policy hypothesis `atanh(clamp(tanh x)) = x` of the squashed Gaussian is satisfiable (`exPrims`)
+example : ∀ x, genPre exPrims 0 (exPrims.tanh x) = x := fun _ => rfl
 
 end Dist
